@@ -840,14 +840,35 @@ def has_side_effect(node: ast.AST, safe_callable_whitelist: Collection[str] = fr
     return True
 
 
+_PHYSICAL_LINE_PATTERN = re.compile(r"[^\r\n]*(?:\r\n|\r|\n)|[^\r\n]+")
+
+
+def split_lines(source: str) -> List[str]:
+    """Split source code into its physical lines, line terminators included.
+
+    Lines are split like the python tokenizer splits them: only \\n, \\r\\n and \\r end a line.
+    str.splitlines() also splits on form feeds, \\v, \\x1c-\\x1e, \\x85, \\u2028 and \\u2029, which are
+    ordinary characters in string literals and comments, so it must not be used on source code.
+    "".join(split_lines(source)) == source.
+    """
+    return _PHYSICAL_LINE_PATTERN.findall(source)
+
+
+def strip_line_terminator(line: str) -> str:
+    """Remove the line terminator (\\n, \\r\\n or \\r), and nothing else, from the end of a line."""
+    if line.endswith("\r\n"):
+        return line[:-2]
+    if line.endswith(("\n", "\r")):
+        return line[:-1]
+    return line
+
+
 @functools.lru_cache(maxsize=100)
 def _get_line_start_charnos(source: str) -> Sequence[int]:
-    # Lines are numbered like the python parser numbers them: only \n, \r\n and \r end a line.
-    # str.splitlines() also splits on form feeds, \v, \x1c-\x1e, \x85, \u2028 and \u2029, which
-    # puts every lineno after such a character (e.g. in a string) on the wrong line.
+    # Lines are numbered like the python parser numbers them, see split_lines.
     start = 0
     charnos = []
-    for line in re.findall(r"[^\r\n]*(?:\r\n|\r|\n)|[^\r\n]+", source):
+    for line in split_lines(source):
         charnos.append(start)
         start += len(line)
     if not source or source[-1] in "\r\n":
@@ -992,7 +1013,7 @@ def has_ignore_comment(source: str, rng: Range) -> bool:
     pattern = re.compile(r"#\s*pyrefact\s*:\s*(skip_file|ignore)")
 
     character_count = 0
-    for line in source.splitlines(keepends=True):
+    for line in split_lines(source):
         line_start = character_count
         line_end = character_count = line_start + len(line)
 
